@@ -12,6 +12,8 @@ use crate::pos::Sp;
 ///
 /// To use this, you must call a method whose scope is at least as large as [`VisitMut::visit_root_block`].
 pub fn run<V: ast::Visitable>(ast: &V, ctx: &CompilerContext<'_>, hooks: &dyn LanguageHooks) -> Result<(), ErrorReported> {
+    #[cfg(truth_verif)]
+    crate::verif_hooks::pass("validate_difficulty");
     let mut visitor = Visitor { ctx, hooks, errors: Default::default(), helper: Default::default() };
     ast.visit_with(&mut visitor);
     visitor.errors.into_result(())
@@ -21,6 +23,8 @@ pub fn run<V: ast::Visitable>(ast: &V, ctx: &CompilerContext<'_>, hooks: &dyn La
 ///
 /// To use this, you must call a method whose scope is at least as large as [`VisitMut::visit_root_block`].
 pub fn forbid_difficulty<V: ast::Visitable>(ast: &V, ctx: &CompilerContext<'_>) -> Result<(), ErrorReported> {
+    #[cfg(truth_verif)]
+    crate::verif_hooks::pass("forbid_difficulty");
     let mut visitor = ForbidDifficultyVisitor { emitter: &ctx.emitter, errors: Default::default() };
     ast.visit_with(&mut visitor);
     visitor.errors.into_result(())
